@@ -121,7 +121,7 @@ PROPS = {
         ],
         "ties": ["BPT.Tie.no_interior_mutability", "BPT.Tie.rust_null_node"],
         "suites": [
-            {"kind": "rust", "suite": "tree-deep", "quick": {"cases": 1, "len": 720000}, "thorough": {"cases": 4, "len": 750000}},
+            {"kind": "rust", "suite": "tree-deep", "quick": {"cases": 2, "len": 720000}, "thorough": {"cases": 4, "len": 750000}},
             {"kind": "rust", "suite": "tree-exh", "quick": {"cases": 8192, "len": 3}, "thorough": {"cases": 65536, "len": 4}},
             {"kind": "rust", "suite": "tree-iter",
              "quick": {"cases": 600, "len": 150}, "thorough": {"cases": 2000, "len": 200}},
@@ -171,6 +171,7 @@ PROPS = {
         ],
         "ties": ["BPT.Tie.rust_null_node", "BPT.Tie.rust_default_capacity"],
         "suites": [
+            {"kind": "rust", "suite": "tree-deep", "quick": {"cases": 1, "len": 60000}, "thorough": {"cases": 4, "len": 750000}},
             {"kind": "rust", "suite": "tree-exh", "quick": {"cases": 8192, "len": 3}, "thorough": {"cases": 65536, "len": 4}},
             {"kind": "rust", "suite": "tree-ops",
              "quick": {"cases": 500, "len": 300}, "thorough": {"cases": 3000, "len": 400}},
@@ -233,7 +234,7 @@ PROPS = {
         ],
         "ties": ["BPT.Tie.rust_range_skip_only_matched", "BPT.Tie.rust_end_key_honours_inclusive"],
         "suites": [
-            {"kind": "rust", "suite": "tree-deep", "quick": {"cases": 1, "len": 720000}, "thorough": {"cases": 4, "len": 750000}},
+            {"kind": "rust", "suite": "tree-deep", "quick": {"cases": 2, "len": 720000}, "thorough": {"cases": 4, "len": 750000}},
             {"kind": "rust", "suite": "tree-range",
              "quick": {"cases": 720, "len": 120}, "thorough": {"cases": 2000, "len": 200}},
         ],
